@@ -38,7 +38,7 @@ func c20SweepRuns(tier string) int {
 
 func (c20) Runs(tier string) int {
 	if tier == "thorough" {
-		return c20SweepRuns(tier) + 1500000
+		return c20SweepRuns(tier) + 1200000
 	}
 	return c20SweepRuns(tier) + 14000
 }
